@@ -1,4 +1,4 @@
-from . import cycle, sidecar, proxy, store, k8s, discovery, explore, pipeline, cfgsync
+from . import cycle, sidecar, proxy, store, k8s, discovery, explore, pipeline, cfgsync, inject
 CHECKS = {}
 for p in cycle.PROPS:
     CHECKS[p] = cycle.check
@@ -13,3 +13,4 @@ CHECKS['C20'] = explore.check
 CHECKS['C02'] = pipeline.check
 CHECKS['C15'] = pipeline.check
 CHECKS['C16'] = cfgsync.check
+CHECKS['C11'] = inject.check
